@@ -5,7 +5,7 @@ from rules import common
 
 CLAIMED = True
 TECHNIQUE = "static analysis over type-checked MIR: iterator-type and index-expression recovery of the shift loop (linear forms over base/count), call-order/dominance of the final move, error-edge classification of move_file, per-arm ordering of the compression variants, file-system effect inventory with path provenance over the roller modules, panic-site inventory of the roll cone"
-LEVEL_TEXT = """Static, all-paths decision of the shift/effect clauses: (R1) the shift loop iterates a reversed u32 range and moves pattern(i) to pattern(i+1) (both via replace("{}", i) and env expansion); (R2) the range is base .. base+count-1 as a linear form over the roller's own base/count (checked/unchecked variants alike); (R3) after the loop the rolled file is moved/compressed into pattern(base) and that error is propagated; (R4) count == 0 only removes the file and returns that result; (R5) move_file: rename first, Ok => Ok, NotFound => Ok, otherwise copy then remove the source only on success; (R6) compression arms: None => move_file, gzip/zstd => open, create, copy, finish, and remove the source only after finish succeeded; (R7) the roller modules' file-system mutators are within {rename, copy, remove_file, create_dir_all, File::create} and every path derives from the pattern+index, the rolled file or a temp name derived from it; (R8) DeleteRoller::roll = remove_file(file), result returned; (R9) no un-discharged panic site in the cone of the Roll implementations. Byte-for-byte contents after N rolls and the decompression round trip are not decided. (R16) a roller built from a document has the document's base, pattern and count; (R17n1-n7) the C19 rule set on expand_env_vars as a premise of every archive name."""
+LEVEL_TEXT = """Static, all-paths decision of the shift/effect clauses: (R1) the shift loop iterates a reversed u32 range and moves pattern(i) to pattern(i+1) (both via replace("{}", i) and env expansion); (R2) the range is base .. base+count-1 as a linear form over the roller's own base/count (checked/unchecked variants alike); (R3) after the loop the rolled file is moved/compressed into pattern(base) and that error is propagated; (R4) count == 0 only removes the file and returns that result; (R5) move_file: rename first, Ok => Ok, NotFound => Ok, otherwise copy then remove the source only on success; (R6) compression arms: None => move_file, gzip/zstd => open, create, copy, finish, and remove the source only after finish succeeded; (R7) the roller modules' file-system mutators are within {rename, copy, remove_file, create_dir_all, File::create} and every path derives from the pattern+index, the rolled file or a temp name derived from it; (R8) DeleteRoller::roll = remove_file(file), result returned; (R9) no un-discharged panic site in the cone of the Roll implementations. Byte-for-byte contents after N rolls and the decompression round trip are not decided. (R16) a roller built from a document has the document's base, pattern and count; (R17n1-n7) the C19 rule set on expand_env_vars as a premise of every archive name. (R2, cont.) the overflow guard is on base + count - 1; (R10, cont.) the base directory is made on every roll, conditional on nothing but the parent being there."""
 LEVEL_NOTE = "Trusted: rustc MIR/callee resolution; std::fs rename/copy/remove semantics; flate2/zstd encoders; str::replace. Decides the shape of the shift and the effect inventory on all paths, not directory contents."
 EXPLANATION = """Decided: R1 shift order, R2 range linear form, R3 final step, R4 count==0, R5 move_file contract, R6 compression ordering (configs with gzip/zstd), R7 effect inventory, R8 delete roller, R9 panic inventory. Undecided: contents after any number of rolls, decompression round trip, all initial directory states."""
 DECIDED = ["R1", "R2", "R3", "R4", "R5", "R6", "R7", "R8", "R9", "R11 a successful roll has taken the file away", "R12 staging name checked absent", "R13 archive write errors surface", "R14 one background rotation at a time; a lowered busy flag is always handed to a worker", "R5+ on every success path of move_file the source is gone"]
@@ -597,6 +597,21 @@ def rule_directories(ctx, p, cfg, rid="R10"):
         loop_cd = [c for c in cds if rot.in_loop(c.block)]
         pre_cd = [c for c in cds if not rot.in_loop(c.block)]
         r.require(len(pre_cd) >= 1 and any(index_of(c.arg(0)) is not None for c in pre_cd), "base-directory-created", fn=rot, detail="the parent of pattern(base) is created before the shift")
+        # ... on every roll: nothing but "the name has a parent" decides it (a flag remembering that it was done once misses a
+        # directory that has gone since, or a pattern that expands elsewhere now)
+        for c in pre_cd:
+            if index_of(c.arg(0)) is None:
+                continue
+            extra = []
+            for sb, si, al in rot.conditions(c.block):
+                d = strip(si.discr)
+                if d[0] == "discr" and any(x[0] == "call" and x[1] in ("std::path::Path::parent", "core::ops::try_trait::Try::branch") for x in walk(d)):
+                    continue
+                if d[0] == "discr" and strip(d[1])[0] == "call" and (strip(d[1])[1] or "").rsplit("::", 1)[-1] in ("checked_add", "create_dir_all"):
+                    continue
+                extra.append(show(si.discr, 4))
+            r.require(not extra, "base-directory-on-every-roll", fn=rot, site=c.at, detail="create_dir_all(parent(pattern(base))) is not conditional on anything but the parent being there",
+                      fail_detail="the archive directory is only made when %s: on the other rolls a missing directory makes the move fail with NotFound, which move_file takes for `nothing to move`" % extra)
         r.require(len(loop_cd) == 1, "per-index-directory-site", fn=rot, detail="create_dir_all sites inside the shift loop: %d" % len(loop_cd))
         mv = [c for c in rot.calls(ro["move_file"].path) if rot.in_loop(c.block)]
         for c in loop_cd:
@@ -970,6 +985,21 @@ def rule_range(ctx, p, cfg, rid="R2"):
         lo, hi = plus(m["last"], so), plus(m["first"], so)
         r.require(lo == {"base": 1}, "starts-at-base", fn=rot, detail="lowest source index -> %s (%s)" % (lo, m["detail"]))
         r.require(hi == {"base": 1, "count": 1, 1: -2}, "ends-at-base+count-1", fn=rot, detail="highest source index -> %s, i.e. the highest destination is base+count-1 (%s)" % (hi, m["detail"]))
+        # the guard against a window that does not fit in the index type is on the window's last index, base + count - 1: a window
+        # ending exactly at the largest index is a valid one
+        vars_ = {"base": ("param", pr["base"]), "count": ("param", pr["count"])}
+        guards = [c for c in rot.calls() if (c.callee or "").rsplit("::", 1)[-1] in ("checked_add", "overflowing_add", "saturating_add") and any(x == ("param", pr["base"]) for a in c.arg_exprs() for x in walk(a))]
+        for i_, c in enumerate(guards):
+            tot = None
+            ls = [linear(a, vars_) for a in c.arg_exprs()]
+            if all(x is not None for x in ls):
+                tot = {}
+                for x in ls:
+                    for k_, v_ in x.items():
+                        tot[k_] = tot.get(k_, 0) + v_
+                tot = {k_: v_ for k_, v_ in tot.items() if v_ != 0}
+            r.require(tot == {"base": 1, "count": 1, 1: -1}, "window-guard-on-last-index#%d" % i_, fn=rot, site=c.at, detail="checked sum = %s" % tot,
+                      fail_detail="the overflow guard checks %s, not base + count - 1: a window whose last index is exactly the largest one is refused (or one that does not fit is let through)" % tot)
         # the roller passes its own base and count
         r.require(True, "params-bound", detail="rotate(pattern=arg%d, base=arg%d, count=arg%d, file=arg%d)" % (pr["pattern"], pr["base"], pr["count"], pr["file"]))
 
